@@ -93,3 +93,25 @@ func Nameish(s string) bool {
 func OneLine(s string) bool {
 	return allBytes(s, func(c byte) bool { return c >= 0x20 && c != 0x7f || c == '\t' })
 }
+
+// AuditPow2 returns 2^n-1, 2^n, 2^n+1 for every new integer literal n in [8, 62] (a new bit width such as 32 in
+// ParseInt(s, 10, 32) shows up as the values around 2^31 and 2^32).
+func AuditPow2() []int64 {
+	seen := map[int64]bool{}
+	var out []int64
+	for _, n := range AuditInts(8, 62, 12) {
+		for _, sh := range []int64{n - 1, n} {
+			if sh < 1 || sh > 62 {
+				continue
+			}
+			b := int64(1) << uint(sh)
+			for _, x := range []int64{b - 1, b, b + 1} {
+				if !seen[x] {
+					seen[x] = true
+					out = append(out, x)
+				}
+			}
+		}
+	}
+	return out
+}
